@@ -75,6 +75,13 @@ class Sequence:
         if not sequences_or_jobs:
             return
         new_jobs = self._flatten(sequences_or_jobs)
+        if not new_jobs:
+            # nothing but None's or empty sequences
+            return
+        # create the chain of requirements among the new jobs
+        for job1, job2 in zip(new_jobs, new_jobs[1:]):
+            job2.requires(job1)
+        # and attach them behind the jobs already in the sequence
         if self.jobs:
             new_jobs[0].requires(self.jobs[-1])
         self.jobs += new_jobs
